@@ -49,22 +49,28 @@ def plan(prop, tier):
     """list of campaign parts: dict(sub, chunks or None (time-boxed share), runs per chunk, options)"""
     if prop == "C11":
         if tier == "quick":
-            return [dict(sub="sched", chunks=500, share=1.0), dict(sub="sched-big", chunks=32, big=True)]
-        return [dict(sub="sched", chunks=None, share=0.86), dict(sub="sched-big", chunks=None, share=0.07, big=True),
-                dict(sub="sched-shipped", chunks=None, share=0.07, shipped_batch=True)]
+            return [dict(sub="sched", chunks=460, share=1.0), dict(sub="sched-fat", chunks=40, fat=True), dict(sub="sched-big", chunks=32, big=True)]
+        return [dict(sub="sched", chunks=None, share=0.76), dict(sub="sched-fat", chunks=None, share=0.1, fat=True),
+                dict(sub="sched-big", chunks=None, share=0.07, big=True), dict(sub="sched-shipped", chunks=None, share=0.07, shipped_batch=True)]
     if tier == "quick":
         return [
             dict(sub="sweep", chunks=40, sweep=True, max_records=7),
             dict(sub="ordinary", chunks=250),
             dict(sub="locked", chunks=120),
-            dict(sub="torn", chunks=120),
+            dict(sub="torn", chunks=100),
+            dict(sub="torn-fat", chunks=20, fat=True),
+            dict(sub="locked-fat", chunks=20, fat=True),
+            dict(sub="ordinary-fat", chunks=20, fat=True),
             dict(sub="ordinary-big", chunks=16, big=True),
         ]
     return [
         dict(sub="sweep", chunks=None, share=0.25, sweep=True, max_records=9),
         dict(sub="ordinary", chunks=None, share=0.30),
-        dict(sub="locked", chunks=None, share=0.2),
-        dict(sub="torn", chunks=None, share=0.15),
+        dict(sub="locked", chunks=None, share=0.15),
+        dict(sub="torn", chunks=None, share=0.1),
+        dict(sub="torn-fat", chunks=None, share=0.03, fat=True),
+        dict(sub="locked-fat", chunks=None, share=0.03, fat=True),
+        dict(sub="ordinary-fat", chunks=None, share=0.04, fat=True),
         dict(sub="ordinary-big", chunks=None, share=0.05, big=True),
         dict(sub="ordinary-shipped", chunks=None, share=0.05, shipped_batch=True),
     ]
@@ -156,9 +162,9 @@ def main():
 
         def mkjob(part, chunk):
             return dict(
-                repo=repo, prop=prop, sub=part["sub"].replace("-shipped", "").replace("-big", ""), base_seed=seed, chunk=chunk, runs=campaign.RUNS_PER_CHUNK,
+                repo=repo, prop=prop, sub=part["sub"].replace("-shipped", "").replace("-big", "").replace("-fat", ""), base_seed=seed, chunk=chunk, runs=campaign.RUNS_PER_CHUNK,
                 known_keys=known_keys, recheck=97, sweep=part.get("sweep", False), max_records=part.get("max_records", 24),
-                shipped_batch=part.get("shipped_batch", False), big=part.get("big", False), label=part["sub"],
+                shipped_batch=part.get("shipped_batch", False), big=part.get("big", False), fat=part.get("fat", False), label=part["sub"],
             )
 
         if args.tier == "quick":
@@ -189,6 +195,7 @@ def main():
                     for vv in res.get("violations", []):
                         vv["order"] = list(order[fu]) + [vv["index"]]
                     merge(total, res)
+                    merge(total_by_sub.setdefault(info, {}), {k: v for k, v in res.items() if k in ("runs", "runs_with_death", "runs_with_relevant_death", "outcomes", "faults_fired", "known", "sweep_points", "sweep_workloads")})
                 if cut is not None and all(f2.done() for f2, o2 in order.items() if o2 <= cut) and all(
                     f2.done() for f2, (k2, _) in futs.items() if k2 == "known"
                 ):
@@ -199,7 +206,6 @@ def main():
                         except Exception:
                             pass
                     break
-                    merge(total_by_sub.setdefault(info, {}), {k: v for k, v in res.items() if k in ("runs", "runs_with_death", "runs_with_relevant_death", "outcomes", "faults_fired", "known", "sweep_points", "sweep_workloads")})
         else:
             # time-boxed: keep every OS worker busy until the budget is used, part shares by wall time
             deadline = t0 + args.budget
